@@ -22,7 +22,7 @@ Same(a, b) == Id(a) = Id(b)
 
 \* ---- constructs: <<name, namespace>>
 Definers == {
-  <<"setv", "var">>, <<"defn", "var">>, <<"defclass", "var">>, <<"import-as", "var">>, <<"for", "var">>,
+  <<"setv", "var">>, <<"defn", "var">>, <<"defclass", "var">>, <<"import-as", "var">>, <<"import-module-as", "var">>, <<"for", "var">>,
   <<"with-as", "var">>, <<"setx", "var">>, <<"global-setv", "var">>, <<"let-free-setv", "var">>,
   <<"defmacro", "macro">>,
   <<"param", "param">>,
@@ -34,7 +34,7 @@ Users == {
   <<"macro-call", "macro">>,
   <<"kw-call", "param">>,
   <<"keyword-lookup", "key">>, <<"get-mangled", "key">>,
-  <<"dotted", "attr">>, <<"dot-form", "attr">>, <<"method-call", "attr">>, <<"dotted-call", "attr">>, <<"getattr", "attr">>}
+  <<"dotted", "attr">>, <<"dot-form", "attr">>, <<"method-call", "attr">>, <<"dotted-call", "attr">>, <<"dot-form-call", "attr">>, <<"getattr", "attr">>}
 
 VARIABLES d1, d2, u
 vars == <<d1, d2, u>>
